@@ -1,6 +1,6 @@
 (* C20 — property theorems only. Each is closed by [exact] of a lemma of Proofs.v. *)
 From Coq Require Import List ZArith QArith Bool Permutation.
-From Gst Require Import lib.QAux C20.Model C20.Spec C20.Proofs C20.Generic.
+From Gst Require Import lib.QAux C20.Model C20.Spec C20.Proofs C20.Generic C20.Cyclic.
 Import ListNotations.
 Local Open Scope Q_scope.
 
@@ -40,6 +40,17 @@ Theorem C20_orientation : forall pts q,
 Proof. exact inside2d_rev. Qed.
 Print Assumptions C20_orientation.
 
+(* the answer does not depend on the vertex the ring starts with (any rotation of the open vertex list) *)
+Theorem C20_cyclic_shift : forall k l q, (k <= length l)%nat ->
+  ~ on_boundary (ring l) q -> inside2d (ring (skipn k l ++ firstn k l)) q = inside2d (ring l) q.
+Proof. intros k l q Hk Hnb. rewrite <- rotn_skipn_firstn by exact Hk. apply inside2d_rotn. exact Hnb. Qed.
+Print Assumptions C20_cyclic_shift.
+
+(* ... where the ring is what closePolyElem builds from a list that is not closed yet *)
+Theorem C20_close_is_ring : forall l, is_closed l = false -> close l = ring l.
+Proof. exact close_ring. Qed.
+Print Assumptions C20_close_is_ring.
+
 (* union rule with vertical limits *)
 Theorem C20_sets_union : forall pes q z,
   polygons_inside pes q z false = true <->
@@ -64,4 +75,10 @@ Example C20_nonvacuous :
   on_boundary_b pts (9#2, 2) = false /\ inside2d pts (9#2, 2) = true /\
   Z.odd (count_cross (9#2) 2 pts) = true /\
   on_boundary_b pts (5#2, 2) = true.
+Proof. vm_compute. repeat split; reflexivity. Qed.
+
+Example C20_cyclic_nonvacuous :
+  let l := [(0,0); (6,0); (6,4); (5,2); (4,4); (3,2); (2,2); (1,4); (0,4)] in
+  is_closed l = false /\ on_boundary_b (ring l) (9#2, 2) = false /\
+  inside2d (ring (skipn 4 l ++ firstn 4 l)) (9#2, 2) = true /\ inside2d (ring l) (9#2, 2) = true.
 Proof. vm_compute. repeat split; reflexivity. Qed.
